@@ -60,3 +60,20 @@ func VerifH_C17_KeyedPRNG() {
 		vAssert(!vBytesEq(a, d), "KeyedPRNG-distinct-keys-distinct-streams")
 	}
 }
+
+// A randomly keyed generator hands out, with Key(), the key that reproduces its stream (stream comparison natively only).
+func VerifH_C17_RandomlyKeyedPRNGIsReproducible() {
+	p, err := NewPRNG()
+	vAssert(err == nil && p != nil, "NewPRNG-no-error")
+	if err != nil || p == nil {
+		return
+	}
+	vAssert(len(p.Key()) == 64, "NewPRNG-key-has-64-bytes")
+	if !vSymbolic() { // (the extendable output function is opaque to the engine: native validation run only)
+		q := VerifSetup_KeyedPRNG(p.Key())
+		a, b := make([]byte, 48), make([]byte, 48)
+		p.Read(a)
+		q.Read(b)
+		vAssert(vBytesEq(a, b), "NewPRNG-stream-is-reproduced-by-a-generator-keyed-with-its-Key")
+	}
+}
